@@ -201,6 +201,7 @@ class World:
         self.t0 = 1700000000.0
         self.same_random_seed = False
         self.same_pid = False
+        self.edit_plan = None         # (scheduling step, new declaration list): defs.py is rewritten while processes run
         self.kill_target = None       # label of the process to kill deterministically (crash-point enumeration)
         self.kill_at = None           # (k, j): die before its k-th seam call; j > 0: call k is a write, j bytes of it reach the file first
         self.oplog = None             # when a list: (label, kind, rel, info) of every seam call
@@ -378,10 +379,17 @@ class World:
             p.thread = threading.Thread(target=self._thread_main, args=(p,), daemon=True, name=p.label)
             p.thread.start()
         current = None
+        nsched = 0
         while True:
             runnable = [p for p in procs if not p.done]
             if not runnable:
                 break
+            nsched += 1
+            if self.edit_plan and nsched == self.edit_plan[0]:
+                # a deploy in the middle: processes that start later execute another text of the defining module
+                _write_defs(self, "defs", self.edit_plan[1])
+                self.out.events.append("defs.py := %s   (while the processes run)" % (self.edit_plan[1],))
+                self.out.stats["probe:edit-between-process-starts"] += 1
             order = ([current] + [p for p in runnable if p is not current]) if current in runnable else runnable
             nxt = order[ch.draw("next-proc", len(order), stream="sched")]
             if current in runnable and nxt is not current:
@@ -815,7 +823,7 @@ class CacheConcEngine(CacheEngineBase):
         "nothing is required of which process's file ends up on disk"]
     expected_probes = ["concurrent-updates", "two-writers-one-name", "read-a-file-another-process-wrote",
                        "pyc-written-after-source-changed", "death-after-mutation", "torn-file-left-behind",
-                       "later-process-hit-cache", "later-process-rewrote-cache", "prior-state-nonempty"]
+                       "later-process-hit-cache", "later-process-rewrote-cache", "prior-state-nonempty", "edit-between-process-starts"]
 
     def execute(self, scenario, ch):
         if scenario.get("mode") == "enum":
@@ -838,17 +846,29 @@ class CacheConcEngine(CacheEngineBase):
             if ch.chance("tick-after-prior", 1, 2):
                 SEAM.clock += [1.0, 3.0][ch.draw("tick", 2)]
         spec = _draw_spec(ch)
+        focus = scenario.get("focus")
+        if focus == "colliding-writers":
+            # developer aid (./check C16 --focus colliding-writers): every run has two same-size declarations in
+            # sequence, colliding process identities, frequent deaths; the draws are still the Chooser's
+            spec = [("Foo", SAME_SIZE[ch.draw("focus-a", 5)]), ("Foo", SAME_SIZE[ch.draw("focus-b", 5)])]
         _write_defs(world, "defs", spec)
         ev("defs.py := %s" % (spec,))
         # ---- concurrent phase
         nproc = 2 + ch.weighted("n-procs", [3, 1])
-        if ch.chance("colliding-identities", 1, 8):
+        if focus == "colliding-writers" or ch.chance("colliding-identities", 1, 8):
             # pid namespaces (containers sharing the directory) + a seeded random module: whatever the library
             # derives from pid and random (temporary file names) is the same in every process
             world.same_pid = world.same_random_seed = True
             st["fault:same-pid-and-random-seed"] += 1
         world.max_deaths = ch.weighted("max-deaths", [2, 3, 1])
         world.crash_den = [0, 40, 15][ch.weighted("crash-rate", [1, 2, 2])] if world.max_deaths else 0
+        if focus == "colliding-writers":
+            world.max_deaths, world.crash_den = 1, 10
+        if focus == "colliding-writers" or ch.chance("edit-while-running", 1, 4):
+            # same class names as the text the running processes executed (bisturi looks the class up in the file
+            # on disk through inspect while defining it; a class that vanished from the file is another matter)
+            espec = [("Foo", SAME_SIZE[ch.draw("focus-c", 5)])] if focus else [(c, _draw_variant(ch, "mid")) for c, _ in spec]
+            world.edit_plan = (1 + ch.draw("edit-at-step", 14), espec)
         procs = [world.spawn("c%d" % i, bytecode=ch.chance("bytecode-on", 1, 2)) for i in range(nproc)]
         for p in procs:
             p.program = (lambda pr: world.define_run(pr, "defs"))
